@@ -56,25 +56,26 @@ Proof.
   - reflexivity.
 Qed.
 
-(* a failed send is never absorbed: if the i-th send call of a run fails, the run
-   ends with that error, whatever the role *)
-Lemma run1f_outcome_of_failed_send : forall p inc fl i s o,
+(* a failed send is never absorbed: once a send call of this side has failed
+   (call j), nothing more is delivered -- the calls delivered by a run started at
+   call i are exactly i .. i + |sent| - 1, all before j *)
+Lemma run1f_nothing_after_failed_send : forall p inc fl i s o,
     run1f p inc fl i = (s, o) ->
-    forall j e, (i <= j)%nat -> fl j = Some e -> (j < i + length s)%nat -> False.
+    forall j e, (i <= j)%nat -> fl j = Some e -> (i + length s <= j)%nat.
 Proof.
-  induction p as [m k IH|mx k IH| |e0]; intros inc fl i s o H j e Hj F Hlt; cbn [run1f] in H.
+  induction p as [m k IH|mx k IH| |e0]; intros inc fl i s o H j e Hj F; cbn [run1f] in H.
   - destruct (fl i) as [e1|] eqn:Fi.
-    + inversion H; subst s. cbn [length] in Hlt. lia.
+    + inversion H; subst s. cbn [length]. lia.
     + destruct (run1f k inc fl (S i)) as [s1 o1] eqn:E. inversion H; subst s o1; clear H.
-      cbn [length] in Hlt.
+      cbn [length].
       destruct (Nat.eq_dec j i) as [->|Hne]; [rewrite Fi in F; discriminate|].
-      apply (IH _ _ _ _ _ E j e); [lia|exact F|lia].
-  - destruct inc as [|[m|e1] r]; try (inversion H; subst s; cbn [length] in Hlt; lia).
+      assert (S i + length s1 <= j)%nat by (apply (IH _ _ _ _ _ E j e); [lia|exact F]). lia.
+  - destruct inc as [|[m|e1] r]; try (inversion H; subst s; cbn [length]; lia).
     destruct (blen m <=? mx).
     + apply (IH _ _ _ _ _ _ H j e); assumption.
-    + inversion H; subst s; cbn [length] in Hlt; lia.
-  - inversion H; subst s; cbn [length] in Hlt; lia.
-  - inversion H; subst s; cbn [length] in Hlt; lia.
+    + inversion H; subst s; cbn [length]; lia.
+  - inversion H; subst s; cbn [length]; lia.
+  - inversion H; subst s; cbn [length]; lia.
 Qed.
 
 Section OneSideFaults.
